@@ -6,11 +6,13 @@ import ScVerif.C18.Seg
 if none set assume fixed = magnitude") has one member, `Fixed{fixed float32}`.  `ActiveAt`, `MagnitudeAt`,
 `Duration`, `Max*`, `SumMagnitude` never read it; `Shift` and `modepb.Cut`/`Shift` carry it along through
 `proto.Clone` or by sharing the segment; `Sum` builds fresh segments without a shape (by its own comment);
-`Cut` is the one function with shape logic: in the two-sided split it copies a `Fixed` shape to both
-parts — but the `before` part of a length-less segment is built without one.
+`Cut` is the one function with shape logic: it copies a `Fixed` shape to every part it builds — the two parts
+of the two-sided split and (after `fix:` c1d3a57) the `before` part cut off the start of a length-less segment;
+before that commit the early return for a length-less segment built `before` from magnitude and length only
+(`cutSegSLegacy`, `PropsShape.C18_cut_shape_legacy_fails`).
 
 `cutSegS` follows cut.go on segments WITH their shape; `PropsShape` proves that erasing the shape gives
-`cutSeg` (so no magnitude, length or flag depends on it) and says exactly which parts carry which shape.
+`cutSeg` (so no magnitude, length or flag depends on it) and that every part carries the segment's shape.
 A `Fixed` value is an integer on the same grid as magnitudes.
 -/
 namespace ScVerif.C18
@@ -29,6 +31,17 @@ deriving Repr, DecidableEq
 
 /-- `Cut(d, segment)` as in cut.go, shape handling included. -/
 def cutSegS (d : Int) (s : SegS) : CutResultS :=
+  if d ≤ 0 then ⟨none, some s, decide (d < 0)⟩
+  else
+    match s.seg.len with
+    | none => ⟨some ⟨⟨s.seg.mag, some d⟩, s.shape⟩, some s, false⟩
+    | some l =>
+      if l ≤ d then ⟨some s, none, true⟩
+      else
+        ⟨some ⟨⟨s.seg.mag, some d⟩, s.shape⟩, some ⟨⟨s.seg.mag, some (l - d)⟩, s.shape⟩, false⟩
+
+/-- `Cut` as it was before `fix:` c1d3a57: the `before` part of a length-less segment has no shape. -/
+def cutSegSLegacy (d : Int) (s : SegS) : CutResultS :=
   if d ≤ 0 then ⟨none, some s, decide (d < 0)⟩
   else
     match s.seg.len with
